@@ -6,7 +6,6 @@
 package ristretto
 
 import (
-	"sync"
 	"time"
 )
 
@@ -30,7 +29,7 @@ type bucket map[uint64]uint64
 
 // expirationMap is a map of bucket number to the corresponding bucket.
 type expirationMap[V any] struct {
-	sync.RWMutex
+	verifRWMutex
 	buckets              map[int64]bucket
 	lastCleanedBucketNum int64
 }
